@@ -81,7 +81,9 @@ def generate(streams, tier):
     n = 6 if r.random() < (0.35 if big else 0.3) else r.randint(2, 6 if big else 5)
     edges = gen_dag(r, n)
     rl = streams.s("labels")
-    labels, _ = W.gen_labels(rl, n, weighted(rl, [("str", 3), ("short", 3), ("prefix", 1)]))
+    labels, _ = W.gen_labels(rl, n, weighted(rl, [("str", 3), ("short", 3), ("prefix", 1), ("int", 2)]))
+    if labels and all(isinstance(x, int) for x in labels) and rl.random() < 0.6:
+        labels = shuffled(rl, range(n))   # the columns of a frame built from an array: 0..n-1, with the falsy 0 among them
     rw = streams.s("workload")
     ops = []
     for _ in range(rw.randint(1, 4)):
@@ -95,7 +97,7 @@ def generate(streams, tier):
             m = rw.randint(3, 5)
             es = gen_dag(rw, m)
             ops.append({"op": "to_dag", "m": m, "dag": es, "mode": rw.choice(["cpdag", "orient_more", "orient_more", "deorient", "deorient", "deorient", "deorient", "random", "random"]), "pick": rw.randrange(10**6),
-                        "order": shuffled(rw, range(m)), "reps": 8})
+                        "order": shuffled(rw, range(m)), "reps": 8, "names": weighted(rw, [("str", 4), ("int0", 3), ("falsy", 2)])})
     return {"n": n, "edges": edges, "labels": labels, "ops": ops}
 
 
@@ -132,6 +134,8 @@ def _pc(case, ctx, op, n, edges, labels, lab2idx):
 
     sk = skeleton(edges)
     calls = [0]
+    if op["ci"] == "match" and not all(isinstance(x, str) for x in labels):
+        op = dict(op, ci="callable")   # Independencies objects take string names only
     if op["ci"] == "match":
         # every true pairwise statement (X _|_ Y | Z) with singleton X, Y: independence_match tests exact membership
         stmts = []
@@ -310,6 +314,12 @@ def _to_dag(ctx, op):
     if not is_acyclic(m, d):
         return
     names = ["n%d" % i for i in range(m)]
+    if op.get("names") == "int0":
+        names = list(range(m))                       # 0 is a vertex like any other
+        random.Random(op["pick"] + 3).shuffle(names)
+    elif op.get("names") == "falsy":
+        names = ["", "a", "b", "c", "d", "e"][:m]    # the empty string is a legal (falsy) node name
+        random.Random(op["pick"] + 3).shuffle(names)
     ext = consistent_extensions(m, d, u)
     if not ext:
         ctx.probe("pdag_not_extendable_skipped")
